@@ -7,7 +7,8 @@ Every insertion is asserted; a toolchain / module layout that does not match fai
 /repo is never touched."""
 import json, os, subprocess, sys
 
-OUT = "/verif/.cache/overlay"
+MUT = os.environ.get("VERIF_MUT_TREE", "")
+OUT = "/verif/.cache/overlay" + ("-" + MUT.strip("/").replace("/", "_") if MUT else "")
 os.makedirs(OUT, exist_ok=True)
 overlay = {}
 
@@ -53,6 +54,16 @@ extra = os.path.join("/verif/tools", "overlay_extra.py")
 if os.path.exists(extra):
     ns = {"overlay": overlay, "OUT": OUT, "goroot": goroot, "modcache": modcache}
     exec(open(extra).read(), ns)
+
+# Mutation testing without touching /repo: VERIF_MUT_TREE names a scratch worktree of /repo; every .go file
+# that differs there (or is new) is overlaid onto its /repo path. Lua files are picked up through cwd.
+if MUT:
+    names = subprocess.check_output(["git", "-C", MUT, "diff", "--name-only", "HEAD"], text=True).split()
+    names += subprocess.check_output(["git", "-C", MUT, "ls-files", "--others", "--exclude-standard"], text=True).split()
+    for n in names:
+        if n.endswith(".go") and not n.endswith("_test.go"):
+            overlay[os.path.join("/repo", n)] = os.path.join(MUT, n)
+            print("mutation overlay:", n)
 
 json.dump({"Replace": overlay}, open(os.path.join(OUT, "overlay.json"), "w"), indent=1)
 print("overlay entries:", len(overlay))
